@@ -381,3 +381,16 @@ Proof.
   rewrite (concat_spans_chain d _ 0 (length d) (find_lines_chain d) (le_n _)).
   apply slice_full.
 Qed.
+
+(* ----------------------------------------------------- number of lines *)
+Lemma find_lines_from_length r : forall st pos pc,
+  length (find_lines_from st pos pc r) = S (length (filter (N.eqb LF) r)).
+Proof.
+  induction r as [|c r IH]; intros st pos pc; cbn [find_lines_from filter length].
+  - reflexivity.
+  - rewrite (N.eqb_sym LF c). destruct (N.eqb c LF); cbn [length]; rewrite IH; reflexivity.
+Qed.
+
+Lemma find_lines_length (d : bytes) :
+  length (find_lines d) = S (length (filter (N.eqb LF) d)).
+Proof. apply find_lines_from_length. Qed.
